@@ -78,12 +78,18 @@ def run(ctx, report):
                    "non-trivial = chunk with >=2 distinct non-null values; distinct by (dtype, null pattern, split, pages, setting)")
     nfiles = 12 if ctx.quick else 120
     reqs = []
-    for fidx in range(nfiles):
+    for fidx in range(nfiles + 2):
         n = rng.choice([1, 5, 9, 17, 40])
         kinds = rng.sample(KINDS, 5)
         if fidx < len(KINDS) // 4 + 1:
             kinds = KINDS[fidx * 4:(fidx + 1) * 4] + kinds[:1]
         pats = {k: rng.choice(["none", "some", "some", "all", "first", "last"]) for k in kinds}
+        directed = fidx - nfiles
+        if directed >= 0:
+            # one row group of several pages whose only missing value sits in the FIRST page (v1, then v2)
+            n = 40
+            kinds = [k for k in ("float64", "dt_ms", "str", "Int64", "boolean") if k in KINDS]
+            pats = {k: "first" for k in kinds}
         df = pd.DataFrame({"rid": np.arange(n, dtype="int64")})
         for j, k in enumerate(kinds):
             col = gen_column(rng, k, n, pats[k])
@@ -92,6 +98,8 @@ def run(ctx, report):
         stats = rng.choice([True, True, "auto", [c for c in df.columns if rng.random() < 0.6]])
         pagesize = rng.choice([None, None, 40, 300])
         version = rng.choice([1, 1, 2])
+        if directed >= 0:
+            offs, stats, pagesize, version = None, True, 40, [1, 2][directed]
         path = os.path.join(ctx.workdir("c04"), f"f{fidx}.parq")
         desc = {"rows": n, "offsets": str(offs), "stats": str(stats)[:60], "pagesize": pagesize, "page_version": version}
         ctx.crumb({"check": "write", **desc, "kinds": kinds})
